@@ -102,7 +102,7 @@ func (in *Interp) callBuiltin(g *Goroutine, name string, args []Value, c *ssa.Ca
 		return nil
 	case "close":
 		if ch := args[0].(*ChanV); ch != nil && in.raceActive(g) {
-			ch.closeVC = g.vc.clone()
+			in.chanMeta(ch).closeVC = g.vc.clone()
 			g.tick()
 		}
 		in.chanClose(args[0].(*ChanV))
